@@ -102,6 +102,7 @@ type zvgGRun struct {
 	Valx2   string      `json:"valx2"` // second honest reading (vform "frac": rounded up); otherwise = valx
 	Vform   string      `json:"vform"` // how the configuration file writes cert_validity_sec (see Gensign!AcceptableVal)
 	Delay   string      `json:"delay"` // "none" | "short" | "long" | "vlong": the agent answers the sign request late
+	Ctx     string      `json:"ctx"`   // "bg" | "cancelled" | "deadline" | "between": the request context handed to Run
 	Crep    string      `json:"crep"`  // "cert" | "agentkey" | "wrapper": representation of the certificates handed to Run
 	Ids     []zvgGIdent `json:"ids"`
 	Dir     zvgGDir     `json:"dir"`
@@ -838,6 +839,8 @@ type zvgStubCA struct {
 	server  *zvgFakeCA
 	inner   csr.Signer
 	crep    string
+	// afterFirst, when set, is called once the first Sign call has returned (request context cancelled between two calls)
+	afterFirst func()
 }
 
 func (c *zvgStubCA) Sign(ctx context.Context, req *proto.SSHCertificateSigningRequest) ([]ssh.PublicKey, []string, error) {
@@ -913,6 +916,9 @@ func (c *zvgStubCA) Sign(ctx context.Context, req *proto.SSHCertificateSigningRe
 	}
 	rec.N = len(recs)
 	push(recs)
+	if idx == 1 && c.afterFirst != nil {
+		c.afterFirst()
+	}
 	// the same certificates in another representation of ssh.PublicKey
 	if c.crep != "" && c.crep != "cert" {
 		out := make([]ssh.PublicKey, len(certs))
@@ -1221,6 +1227,9 @@ func (g *zvgGInst) runOne(ri int, run *zvgGRun, pre []zvgGID) (*zvgGRec, []zvgGI
 	}
 	if run.Crep == "" {
 		run.Crep = "cert"
+	}
+	if run.Ctx == "" {
+		run.Ctx = "bg"
 	}
 	// ---- concrete inputs (pairwise distinct) ----
 	cv := zvgGConc{}
@@ -1589,7 +1598,16 @@ func (g *zvgGInst) runOne(ri int, run *zvgGRun, pre []zvgGID) (*zvgGRec, []zvgGI
 	env := map[string]string{"SSH_ORIGINAL_COMMAND": cmd, "LOGNAME": cv.ln,
 		"SSH_CONNECTION": fmt.Sprintf("%s %d %s 22", cv.ip, 1024+r.Intn(64000), zvgGenIP4(r))}
 	param, perr := csr.NewReqParam(func(k string) string { return env[k] }, func() []string { return []string{"/usr/bin/gensign", run.Ns, HandlerName} })
-	if perr != nil || param == nil || param.Attrs == nil || param.LogName != cv.ln || param.ReqUser != cv.ru || param.ReqHost != cv.rh ||
+	canonNs := run.Ns == "NONS" || run.Ns == "NSOK"
+	paramRefused := false
+	if !canonNs {
+		// a namespace-policy token other than the two canonical ones: only the real parser decides what it means;
+		// when it refuses the forced command there is no request at all
+		if perr != nil || param == nil {
+			paramRefused = true
+			param = &csr.ReqParam{LogName: cv.ln, ReqUser: cv.ru, ReqHost: cv.rh, ClientIP: cv.ip, TransID: transid.Generate()}
+		}
+	} else if perr != nil || param == nil || param.Attrs == nil || param.LogName != cv.ln || param.ReqUser != cv.ru || param.ReqHost != cv.rh ||
 		param.ClientIP != cv.ip || string(param.NamespacePolicy) != run.Ns ||
 		(wire == "json" && (param.Attrs.HardKey != run.Hard || int(param.Attrs.CAPubKeyAlgo) != run.Algo)) {
 		// (for the legacy format the flags are whatever the real parser makes of the text: that chain is under test)
@@ -1617,6 +1635,22 @@ func (g *zvgGInst) runOne(ri int, run *zvgGRun, pre []zvgGID) (*zvgGRec, []zvgGI
 	}
 	ch := make(chan res, 1)
 	var out res
+	runCtx, cancelCtx := context.WithCancel(context.Background())
+	defer cancelCtx()
+	switch run.Ctx {
+	case "cancelled":
+		cancelCtx()
+	case "deadline":
+		// shorter than the slow agent's delay ("short" = 0.5 s): it expires during the agent phase
+		var c2 context.CancelFunc
+		runCtx, c2 = context.WithTimeout(runCtx, 200*time.Millisecond)
+		defer c2()
+	case "between":
+		ca.afterFirst = cancelCtx
+	}
+	if paramRefused {
+		notStarted = true
+	}
 	if !notStarted {
 		go func() {
 			var out res
@@ -1626,7 +1660,7 @@ func (g *zvgGInst) runOne(ri int, run *zvgGRun, pre []zvgGID) (*zvgGRec, []zvgGI
 				}
 				ch <- out
 			}()
-			out.err = gensign.Run(context.Background(), param, hs, ca)
+			out.err = gensign.Run(runCtx, param, hs, ca)
 		}()
 		select {
 		case out = <-ch:
@@ -1651,6 +1685,9 @@ func (g *zvgGInst) runOne(ri int, run *zvgGRun, pre []zvgGID) (*zvgGRec, []zvgGI
 	obs.Pan = out.pan
 	if notStarted {
 		obs.Err = "NewHandler"
+	}
+	if paramRefused {
+		obs.Err = "NewReqParam"
 	}
 	post, err := g.observe()
 	if err != nil {
@@ -1830,6 +1867,17 @@ func zvgRandomCase(n int, maxRuns int) zvgGCase {
 		}
 		if r.Intn(40) == 0 {
 			run.Delay = "short"
+		}
+		switch r.Intn(30) {
+		case 0:
+			run.Ctx = "cancelled"
+		case 1:
+			run.Ctx = "between"
+		case 2:
+			run.Ctx, run.Delay = "deadline", "short"
+		}
+		if r.Intn(20) == 0 {
+			run.Ns = []string{"nons", "Nons", "nsok", "Nsok", "nsOK", "NSOK1", "NS_OK", "NONS1", "", " NONS", "NONS ", " NSOK", "noNS"}[r.Intn(13)]
 		}
 		// key identifiers: at most one entry per algorithm
 		forms := []string{"lower", "upper", "mixed", "num"}
